@@ -320,7 +320,7 @@ def run(c):
         gen = []
         for (k, cfg, tag) in GENS:
             c.require_ok(R[k], "all properties + transition enumeration, one observer, one restart: " + cfg)
-            gb, ntr, nst, tot = graph_behaviours(R[k], cfg, tag, rng, max_paths=(350 if quick and k == "gen4i" else None))
+            gb, ntr, nst, tot = graph_behaviours(R[k], cfg, tag, rng, max_paths=(250 if quick and k == "gen4i" else None))
             c.notes.append("%s: %d transitions, %d states, %d covering behaviours (%s replayed)" % (cfg, ntr, nst, tot, "all" if len(gb) == tot else len(gb)))
             gen += gb
         s3 = sim_behaviours(c, R["s3"], "Sim_DposLib.cfg", "sim3", simdir["s3"])
